@@ -163,7 +163,17 @@ class C04(Property):
                 if rng.random() < 0.4:
                     ls.append(self.rand_loc(rng, n, False))
                 rng.shuffle(ls)
-            return {"f": f, "ls": ls, "wrap": w}
+            case = {"f": f, "ls": ls, "wrap": w}
+            if rng.random() < 0.4:
+                # through Record.connect_locations: the wrap point is the record length iff the record is circular
+                # and wrapping is not disabled
+                if w:
+                    case["via_record"] = {"max": n, "circ": True, "nowrap": False}
+                elif not any(x["c"] for x in ls):
+                    case["via_record"] = {"max": n, "circ": rng.random() < 0.5, "nowrap": False}
+                    if case["via_record"]["circ"]:
+                        case["via_record"]["nowrap"] = True
+            return case
         if f == "extend":
             d = rng.choice([0, 1, 2, n // 4, n // 2, n // 2 + 1, n - 1, n, n + 3, rng.randrange(0, n + 1)])
             return {"f": f, "a": a, "d": d, "max": n, "circ": circular}
@@ -265,7 +275,13 @@ class C04(Property):
                 return {"v": bool(SubRegion(a, tool="t") < SubRegion(b, tool="t"))}
             if f == "connect":
                 ls = [common.make_location(x) for x in case["ls"]]
-                res = loc.connect_locations(ls, case["wrap"] or None)
+                if case.get("via_record"):
+                    from antismash.common.secmet.test.helpers import DummyRecord
+                    vr = case["via_record"]
+                    rec = DummyRecord(length=vr["max"], circular=vr["circ"])
+                    res = rec.connect_locations(ls, disable_wrapping=True) if vr["nowrap"] else rec.connect_locations(ls)
+                else:
+                    res = loc.connect_locations(ls, case["wrap"] or None)
                 out = {"v": common.location_json(res)}
                 # metamorphic part of the property: argument order and applying the operation twice
                 try:
@@ -356,6 +372,7 @@ class C04(Property):
         detail = "" if corr else f"model {drv['model']} vs implementation {obs}"
         # ---- spec on the implementation's output
         spec_ok = True
+        known_id: Optional[str] = None
         tags = [f, "in-scope" if scope else "out-of-scope"]
         nontrivial = False
         if scope and "err" not in obs:
@@ -395,6 +412,10 @@ class C04(Property):
                     tags.append("arc")
                 else:   # multi-exon input: outer ends only; introns are not filled (by design)
                     spec_ok = oi["covers_input"] and oi["within_expected"] and oi["inside"]
+                    if spec_ok and not oi["covers_expected"]:
+                        # recorded defect class: some bases within the distance of the outer ends stay uncovered
+                        spec_ok = False
+                        known_id = "KF-C04-extend-multi-exon-flanks" if case["circ"] else None
                 if all(p[2] == 1 for p in case["a"]["parts"]) and len(case["a"]["parts"]) <= 2:
                     tags.append("area")
                 nontrivial = case["d"] > 0
@@ -422,7 +443,9 @@ class C04(Property):
             tags.append("err:" + obs["err"])
         if any(x.get("c") for x in ([case.get("a"), case.get("b")] + case.get("ls", [])) if x):
             tags.append("compound-operand")
-        return Judgement(corr, spec_ok, in_scope=scope, nontrivial=nontrivial, tags=tuple(tags), detail=detail)
+        return Judgement(corr, spec_ok, in_scope=scope, known=known_id if (not spec_ok and corr) else None,   # the recorded deviation is what the model (= unchanged code) does
+                          nontrivial=nontrivial,
+                         tags=tuple(tags), detail=detail)
 
     def shrink(self, case: Dict[str, Any]) -> Iterator[Dict[str, Any]]:
         if "ls" in case and len(case["ls"]) > 1:
